@@ -71,7 +71,7 @@ pub fn timeout(maxtime: Duration, fut: RecvFut, env: &mut WEnv) -> (r: Result<Re
                 && batch(final(env)) == (if p == Priority::Urgent || e.empty { batch(old(env)).push(e) } else { batch(old(env)) })
                 && batch_t(final(env)) == (if p == Priority::Urgent || e.empty { batch_t(old(env)).push(final(env).now@) } else { batch_t(old(env)) })
                 && batch_filtered(final(env)) == (if p != Priority::Urgent && !e.empty { batch_filtered(old(env)).push(old(env).recvd@.len() as int) } else { batch_filtered(old(env)) }),
-            Ok(Err(_)) => final(env).recvd == old(env).recvd,
+            Ok(Err(_)) => final(env).recvd == old(env).recvd && final(env).closed@,
             Err(_) => final(env).recvd == old(env).recvd && !maxtime.inf && final(env).now@ >= old(env).now@ + maxtime.ns
                 && final(env).slack@ == old(env).slack@ + (final(env).now@ - (old(env).now@ + maxtime.ns)),
         }
